@@ -547,6 +547,8 @@ class _Walker:
         if isinstance(t, ast.Name):
             env[t.id] = o
             self.not_slice.add(t.id)               # loop variables over arrays / ranges are elements, not slices
+            if not self.f.is_njit and any(x != F for x in o):
+                self.array_names.add(t.id)         # an element of a container of arrays is an array: fancy index when used as one
         elif isinstance(t, (ast.Tuple, ast.List)):
             for el in t.elts:
                 self.bind_target(el.value if isinstance(el, ast.Starred) else el, load(o), env)
